@@ -188,7 +188,7 @@ pub fn eval(expr: Node) -> Result<i64, Box<dyn error::Error>> {
         }
         Min(args) => {
             if args.len() > 1 {
-                let mut result = i64::MIN;
+                let mut result = i64::MAX;
                 for arg in <Vec<Node> as Clone>::clone(&args).into_iter() {
                     result = eval(arg).unwrap().min(result);
                 }
@@ -202,7 +202,7 @@ pub fn eval(expr: Node) -> Result<i64, Box<dyn error::Error>> {
         }
         Max(args) => {
             if args.len() > 1 {
-                let mut result = i64::MAX;
+                let mut result = i64::MIN;
                 for arg in <Vec<Node> as Clone>::clone(&args).into_iter() {
                     result = eval(arg).unwrap().max(result);
                 }
